@@ -248,6 +248,11 @@ func (ex *Exec) lvalue(e ast.Expr) Loc {
 			if s.Abs != nil {
 				ex.unsupported("indexing an abstract byte slice at %s", ex.where(e))
 			}
+			if s.SymLen != nil {
+				// contents of the "other length" class are not modelled; only the bounds check is
+				ex.oblige("safety", "index@"+ex.where(e), And(Le(IntI(0), ex.idxInt(idxV)), Lt(ex.idxInt(idxV), s.SymLen)), "index into slice of unknown length")
+				ex.unsupported("content access to a slice of the 'other length' class at %s", ex.where(e))
+			}
 			return ex.indexLoc(s.Obj, s.Off, s.Len, u.Elem(), idxV, e)
 		}
 	}
@@ -501,7 +506,8 @@ func (ex *Exec) evalBinary(e *ast.BinaryExpr) Value {
 		return BoolC(eq)
 	}
 	if mt.Kind == "error" || machType(ex.typeOf(e.Y)).Kind == "error" {
-		x, y := ex.evalTerm(e.X), ex.evalTerm(e.Y)
+		errT := types.Universe.Lookup("error").Type()
+		x, y := ex.coerce(ex.eval(e.X), errT).(*Term), ex.coerce(ex.eval(e.Y), errT).(*Term)
 		if e.Op == token.EQL {
 			return Eq(x, y)
 		}
